@@ -3,7 +3,8 @@
      (table classes)                          the mode, then per class: both __init__ members, both labels, the gap flags of this mode,
                                               both presented constructors
      (layout modules queries)                 per query (module, base names): is `dataclass` recognised in that module when the event fires,
-                                              does each base name resolve to its class (Model/C18_layout.v; whether expand_wildcards ran
+                                              does each base name resolve to its class, is `dataclass` recognised by the visitor, are field /
+                                              KW_ONLY / InitVar recognised at the event, is ClassVar recognised by the visitor (Model/C18_layout.v; whether expand_wildcards ran
                                               before the event is read off the translated order of _post_load)
      (session classes paths events dc kp)     per class object: members["__init__"] and the label after the extension object has
                                               served the events in turn (state machine of Model/C18_machine.v) *)
@@ -43,7 +44,8 @@ Fixpoint enc_objects (t : table) (st : sstate) (i : nat) (l : list cls) : list s
 
 Definition dec_lstmt (s : sexp) : option lstmt :=
   match s with
-  | SList [SStr "std"] => Some LStd
+  | SList [SStr "std"; hs] => do hs' <- as_list_of as_nat hs; Some (LStd hs')
+  | SList [SStr "fromh"; m; h] => do m' <- as_nat m; do h' <- as_nat h; Some (LFromH m' h')
   | SList [SStr "from"; m; k] => do m' <- as_nat m; do k' <- as_nat k; Some (LFrom m' k')
   | SList [SStr "star"; m] => do m' <- as_nat m; Some (LStar m')
   | SList [SStr "class"; k] => do k' <- as_nat k; Some (LClass k')
@@ -85,7 +87,14 @@ Definition run_C18 (s : sexp) : sexp :=
           SList (map (fun q : nat * list nat =>
                         let (m, bs) := q in
                         SList [of_bool (recognised expanded_at_event L m);
-                               SList (map (fun b => of_bool (base_resolves expanded_at_event L m b)) bs)]) queries)
+                               SList (map (fun b => of_bool (base_resolves expanded_at_event L m b)) bs);
+                               (* the visitor's view (labels): before any expansion *)
+                               of_bool (recognised false L m);
+                               of_bool (recognised_h h_field expanded_at_event L m);
+                               of_bool (recognised_h h_kwonly expanded_at_event L m);
+                               of_bool (recognised_h h_initvar expanded_at_event L m);
+                               (* Expr.is_classvar is evaluated by the visitor: by last name, or by the one-hop canonical path *)
+                               of_bool (classvar_by_last_name || recognised_h h_classvar false L m)]) queries)
       | _, _ => bad_input end
   | SList [SStr "session"; cs; ps; evs; dc; kp] =>
       match as_list_of dec_cls cs, as_list_of as_nat ps, as_list_of (as_list_of as_nat) evs, as_bool dc, as_bool kp with
